@@ -147,6 +147,8 @@ def h_data_roundtrip(atom_style, units, pbc, with_velocity, variant):
         if variant == 'comments':
             text = text.replace('xlo xhi', 'xlo xhi   # bounds').replace(f'Atoms # {atom_style}\n', f'Atoms # {atom_style}\n', 1)
             text = 'written by a test # with a comment\n' + text.split('\n', 1)[1]
+            lines = text.split('\n'); i = lines.index(f'Atoms # {atom_style}') + 2
+            lines[i] = lines[i] + '   # first atom'; lines[i + 1] = lines[i + 1] + ' # second atom'; text = '\n'.join(lines)       # comments the format allows after a data line
         src = io.BytesIO(text.encode()) if variant == 'stream' else text
         new = am.load('atom_data', src, pbc=pbc, atom_style=None if variant != 'explicit_style' else atom_style, units=units)
         wV = s.box.vects; wO = s.box.origin           # the writer wraps the system: compare with the wrapped (possibly enlarged) cell
@@ -225,7 +227,7 @@ def h_table_roundtrip():
     return fn
 
 
-def h_poscar_roundtrip(coordstyle, symbolic_scale, with_symbols):
+def h_poscar_roundtrip(coordstyle, symbolic_scale, with_symbols, gap=False):
     def fn():
         import atomman as am
         lx, ly, lz = [var(n, 1, 10) for n in ('lx', 'ly', 'lz')]
@@ -234,7 +236,11 @@ def h_poscar_roundtrip(coordstyle, symbolic_scale, with_symbols):
         box = am.Box(lx=lx, ly=ly, lz=lz, xy=xy, xz=xz, yz=yz)
         Sc = [[var(f's{k}{i}', 0, 1) for i in range(3)] for k in range(3)]
         P = [[sum(Sc[k][i] * V[i][j] for i in range(3)) for j in range(3)] for k in range(3)]
-        s = am.System(atoms=am.Atoms(pos=sa(P), atype=[2, 1, 2]), box=box, symbols=['Al', 'Cu'] if with_symbols else [None, None])
+        if gap:
+            # three declared types, the second one without atoms
+            s = am.System(atoms=am.Atoms(pos=sa(P), atype=[3, 1, 3]), box=box, symbols=['Al', 'Ni', 'Cu'])
+        else:
+            s = am.System(atoms=am.Atoms(pos=sa(P), atype=[2, 1, 2]), box=box, symbols=['Al', 'Cu'] if with_symbols else [None, None])
         sc = var('scale', 0.5, 4) if symbolic_scale else 1.0
         text = s.dump('poscar', coordstyle=coordstyle, box_scale=sc, float_format='%s')
         new = am.load('poscar', text)
@@ -243,10 +249,10 @@ def h_poscar_roundtrip(coordstyle, symbolic_scale, with_symbols):
         if new.natoms != 3: return ob
         nV = new.box.vects
         ob.append(('cell vectors', band(*[eq(nV[i][j], V[i][j], S) for i in range(3) for j in range(3)])))
-        ob.append(('atoms grouped by type (documented normalisation): types 1,2,2', [int(t) for t in new.atoms.atype] == [1, 2, 2]))
+        ob.append(('atoms grouped by type (documented normalisation): types 1,2,2' if not gap else 'atoms grouped by type, the empty type keeps its place: types 1,3,3', [int(t) for t in new.atoms.atype] == ([1, 2, 2] if not gap else [1, 3, 3])))
         for n_, k in enumerate([1, 0, 2]):
             ob.append((f'position of original atom {k}', band(*[eq(new.atoms.pos[n_, j], P[k][j], S) for j in range(3)])))
-        ob.append(('element symbols', tuple(new.symbols) == (('Al', 'Cu') if with_symbols else (None, None))))
+        ob.append(('element symbols', tuple(new.symbols) == ((('Al', 'Cu') if with_symbols else (None, None)) if not gap else ('Al', 'Ni', 'Cu'))))
         return ob
     return fn
 
@@ -269,4 +275,5 @@ def cases(tier, seed=0):
     for cstyle, ss, sym in (('direct', False, True), ('Cartesian', True, True), ('direct', True, False), ('Cartesian', False, False)):
         cs.append(Case(f'poscar_{cstyle}{"_scale" if ss else ""}{"" if sym else "_nosymbols"}', h_poscar_roundtrip(cstyle, ss, sym), bind=BIND, setup=setup, budget_s=120, timeout_ms=15000,
                        descr=f'load(dump) POSCAR: {cstyle}, {"symbolic scale" if ss else "scale 1"}, symbols {"present" if sym else "absent"}'))
+    cs.append(Case('poscar_direct_type_gap', h_poscar_roundtrip('direct', True, True, gap=True), bind=BIND, setup=setup, budget_s=120, timeout_ms=15000, descr='load(dump) POSCAR with three declared types of which the second has no atoms'))
     return cs
